@@ -212,6 +212,13 @@ def run_installation(job):
                    lambda r: cc.match_zone_control(gen, r, cc.zone_intent(zid, power="on"))),
                   ("zone-off", lambda: z.set_power(A.ZonePowerState.OFF), "zone-control",
                    lambda r: cc.match_zone_control(gen, r, cc.zone_intent(zid, power="off")))]
+    # (two timer commands with different times: their frames share an encoder, and on a stalled link the first is
+    # still in the transport's hands when the second is encoded)
+    import datetime as _dt
+    for nm, tt, hh in (("timer-on-7", A.AcTimerType.ON_TIMER, 7), ("timer-on-9", A.AcTimerType.ON_TIMER, 9)):
+        alpha.append((nm, lambda tt=tt, hh=hh: ac.set_quick_timer(tt, _dt.time(hour=hh, minute=15)), "timer-control",
+                      lambda r, hh=hh: (None if any(x["ac"] == a and x["on"] == {"disabled": False, "hour": hh, "minute": 15} for x in r)
+                                        else f"no record for ac {a} with the on-timer at {hh}:15 in {r}")))
     for mode, seq in itertools.product(("outage", "burst", "stalled"), itertools.product(range(len(alpha)), repeat=3)):
         if mode == "outage":
             w.net.auto = None
